@@ -556,6 +556,12 @@ func caseC11(t TB, prog *Program) {
 		if n, oerr := db.Count(&Other{}); oerr != nil || n != nOther {
 			e.failf("second (untouched) collection: Count=%d err=%v, want %d", n, oerr, nOther)
 		}
+		// the uuids of the first collection are looked up in the second one (never stored there)
+		for id := range fileSet {
+			if _, gerr := db.GetByUUID(&Other{}, id); gerr == nil {
+				e.failf("GetByUUID of %s in the second collection succeeded: it was never stored there", id)
+			}
+		}
 		for round := 0; round < 6; round++ {
 			cerr := db.Control()
 			if divergent && !sod.IsIndexCorrupted(cerr) {
